@@ -23,6 +23,8 @@ func Run(o *drv.Out) {
 	CorpusLeaderMessageEcho(o)
 	CorpusStaleElectionCertificate(o)
 	CorpusPacemakerPush(o)
+	CorpusStaleBlockHash(o, false)
+	CorpusStaleBlockHash(o, true)
 	nCases := 80
 	if o.Tier == "thorough" {
 		nCases = 500
@@ -124,6 +126,15 @@ func timedCase(o c01.Sink, rng *rand.Rand, tier string, k int) caseStats {
 		}
 	}
 	style := styles[rng.Intn(len(styles))]
+	// plan "two locks": replica A alone locks in round 0; cut off, it does not see the others lock on another block in a
+	// later round (their PRECOMMIT_VOTEs are lost); at GST the Byzantine validator falls silent, so A is needed for +2/3
+	planA := -1
+	if rng.Intn(4) == 0 {
+		n, powers, weighted = 4, []uint64{1, 1, 1, 1}, false
+		byz = []int{rng.Intn(4)}
+		style = "silent"
+		planA = (byz[0] + 1 + rng.Intn(3)) % 4
+	}
 	cfg := bftsim.Config{N: n, Powers: powers, Byz: byz, Root0: 10, Salt: rng.Uint64() % 1_000_000, RealTimeouts: true}
 	r := c01.NewRun(o, fmt.Sprintf("timed/%d/%s/n%d/byz%v", k, style, n, byz), cfg)
 	s := r.Sim()
@@ -136,8 +147,17 @@ func timedCase(o c01.Sink, rng *rand.Rand, tier string, k int) caseStats {
 	// the adversarial prefix: replicas start at different times, the network loses, delays and partitions
 	t.gst = int64(15000 + rng.Intn(250000))
 	lateCase := rng.Intn(2) == 0
+	t.planA = planA
+	if planA >= 0 {
+		o.Count("prefix:plan-two-locks")
+		lateCase = false
+		t.gst = int64(170000 + rng.Intn(90000))
+	}
 	for i := range t.next {
 		t.next[i] = int64(rng.Intn(12000))
+		if planA >= 0 {
+			t.next[i] = int64(rng.Intn(300))
+		}
 		if lateCase && rng.Intn(3) == 0 { // a late starter: it is rounds behind when the network heals
 			t.next[i] = rng.Int63n(t.gst)
 			o.Count("prefix:late-starter")
@@ -146,7 +166,7 @@ func timedCase(o c01.Sink, rng *rand.Rand, tier string, k int) caseStats {
 	}
 	// a root-chain update during the prefix reaches the replicas at different times (round restarts at 0, locks kept)
 	bumpAt := map[int]int64{}
-	if rng.Intn(5) < 2 {
+	if planA < 0 && rng.Intn(5) < 2 {
 		for i := 0; i < n; i++ {
 			bumpAt[i] = t.gst/4 + rng.Int63n(t.gst*3/4)
 		}
@@ -297,6 +317,10 @@ func (t *timed) anyCorrect() int {
 func (t *timed) dispatch(part []bool) {
 	s := t.s
 	for _, e := range s.Take(func(*bftsim.Envelope) bool { return true }) {
+		if t.planA >= 0 && t.now < t.gst && e.Kind == "PRECOMMIT" && e.Msg.Header.Round == 0 && e.To != t.planA {
+			t.o.Count("net:plan-precommit-only-to-A") // also withheld from the leader itself
+			continue
+		}
 		if e.From == e.To { // the self-send is internal routing
 			t.flight = append(t.flight, &inflight{t.now, e})
 			continue
@@ -307,6 +331,25 @@ func (t *timed) dispatch(part []bool) {
 				continue
 			}
 			t.flight = append(t.flight, &inflight{t.now + t.rng.Int63n(t.delta+1), e})
+			continue
+		}
+		if t.planA >= 0 {
+			rd := uint64(0)
+			if e.Msg.Header != nil {
+				rd = e.Msg.Header.Round
+			} else if e.Msg.Qc != nil && e.Msg.Qc.Header != nil {
+				rd = e.Msg.Qc.Header.Round
+			}
+			switch {
+			case rd == 0 && e.Kind == "PRECOMMIT" && e.To != t.planA:
+				t.o.Count("net:plan-precommit-only-to-A")
+			case rd >= 1 && (e.From == t.planA || e.To == t.planA):
+				t.o.Count("net:plan-A-cut-off")
+			case rd >= 1 && (e.Kind == "PRECOMMIT_VOTE" || e.Kind == "COMMIT"):
+				t.o.Count("net:plan-precommit-votes-lost")
+			default:
+				t.flight = append(t.flight, &inflight{t.now + t.rng.Int63n(100), e})
+			}
 			continue
 		}
 		x := t.rng.Float64()
